@@ -1355,8 +1355,49 @@ def rule_validation_args(repo, rep):
               bad, ' and nothing for %s' % missing if missing else ''))
 
 
+def rule_same_precision(repo, rep):
+  R = 'R-SIB:calibration-scores-like-predict'
+  rep.rule(R, 'calibrate_threshold validates the validation pairs with the '
+           'same dtype option as decision_function / predict / pair_distance '
+           'validate theirs: a cut-off computed from distances in another '
+           'precision (float64 scores of float32 pairs) is not a cut-off of '
+           'the distances predict compares with threshold_')
+  c = repo.get_class('_PairsClassifierMixin')
+  if c is None:
+    rep.unknown(R, '_PairsClassifierMixin', '', 'class vanished')
+    return
+  opts = {}
+  for nm in ('calibrate_threshold', 'decision_function', 'predict',
+             'pair_distance', 'score'):
+    f = repo.resolve_method(c, nm)
+    if f is None:
+      continue
+    for call in astutil.calls_in(f.node):
+      t = ast.unparse(call.func)
+      if t.endswith('check_input') or t.endswith('_prepare_inputs'):
+        kw = dict((k.arg, ast.unparse(k.value)) for k in call.keywords
+                  if k.arg)
+        opts[nm] = (kw.get('dtype'), call, f)
+  if 'calibrate_threshold' not in opts or len(opts) < 2:
+    rep.unknown(R, 'calibrate_threshold', '', 'validator calls not found '
+                '(%s)' % sorted(opts))
+    return
+  ref = opts['calibrate_threshold']
+  others = dict((k, v) for k, v in opts.items() if k != 'calibrate_threshold')
+  diff = [k for k, v in others.items() if v[0] != ref[0]]
+  key = 'calibrate_threshold:dtype-option'
+  if not diff:
+    rep.derived(R, key, site(ref[2], ref[1]))
+  else:
+    rep.refuted(R, key, site(ref[2], ref[1]), 'calibrate_threshold validates '
+                'with dtype=%s, %s with dtype=%s: the scores the cut-off is '
+                'chosen from are not the ones predict compares with it'
+                % (ref[0], diff[0], others[diff[0]][0]))
+
+
 def check(repo, rep, tier):
   before = len(rep.obs)
+  rule_same_precision(repo, rep)
   rule_validation_args(repo, rep)
   c06.rule_calibration_first(repo, rep)
   rule_min_rate_range(repo, rep)
